@@ -327,6 +327,16 @@ def check_combine(seed, shard):
                 lp, rp = set(ml_.config.par_order), set(mr_.config.par_order)
                 if (lp & rp) and (lp - rp) and (rp - lp):
                     shard.nontrivial("combine", join, sorted(lp & rp), len(lp - rp), len(rp - lp), mname)
+        # the combined workspace shares nothing with its inputs: the caller edits every leaf of it in place
+        from .c17 import scramble
+        rj0 = copy.deepcopy(dict(Rj))
+        scramble(comb)
+        if dict(L) != l0 or dict(Rj) != rj0 or comb is L or comb is Rj:
+            shard.violate("C16/result-aliases-input", f"combine(join={join}): editing the result in place changed an input workspace", c, "inputs_untouched")
+            L, R = pyhf.Workspace(copy.deepcopy(l0)), pyhf.Workspace(copy.deepcopy(r0))
+        else:
+            shard.ok("inputs_untouched")
+            shard.covered("aliasing_checked_after", f"combine/{join}")
         shard.covered("joins", join)
 
 
@@ -599,6 +609,35 @@ def check_prune_rename_sort(seed, shard):
         shard.violate("C16/operation-mutates-input", "prune/rename/sorted modified the input workspace", case, "inputs_untouched")
     else:
         shard.ok("inputs_untouched")
+    # every operation returns a NEW workspace: not the input object, and sharing nothing with it - the caller edits every
+    # leaf of the result in place and the input must not notice.  Empty selections included (they select nothing, the
+    # result is an equal, separate workspace).
+    from .c17 import scramble
+    ops = [("prune()", lambda: W.prune(), w0), ("prune(modifiers=[])", lambda: W.prune(modifiers=[]), w0), ("rename()", lambda: W.rename(), w0),
+           ("rename(channels={})", lambda: W.rename(channels={}), w0), ("prune(selection)", lambda: W.prune(**sel), None),
+           ("rename(maps)", lambda: W.rename(**maps), None), ("sorted", lambda: pyhf.Workspace.sorted(W), None)]
+    for label, fn, want in ops:
+        try:
+            out = fn()
+        except Exception as e:
+            if want is not None:
+                shard.violate("C16/empty-selection-raised", f"{label} raised {type(e).__name__}: {str(e)[:150]}", dict(case, operation=label), "inputs_untouched")
+            continue
+        ap = []
+        if out is W:
+            ap.append("returned the input object itself")
+        if want is not None and dict(out) != want:
+            ap.append("an empty selection changed the content")
+        if not ap:
+            scramble(out)
+            if dict(W) != w0:
+                ap.append("editing the result in place changed the input workspace")
+        if ap:
+            shard.violate("C16/result-aliases-input", f"{label}: " + "; ".join(ap), dict(case, operation=label), "inputs_untouched")
+            W = pyhf.Workspace(copy.deepcopy(w0))
+        else:
+            shard.ok("inputs_untouched")
+            shard.covered("aliasing_checked_after", label)
 
 
 def plan(tier, seed):
